@@ -200,7 +200,14 @@ def _compare_vcr_entry(e: dict, r, rec, sanitize: bool, preserve: bool) -> tuple
         return "request.method", f"method {req.get('method')!r} != {r.request.method!r}"
     uri = req.get("uri")
     if uri != r.request.url and not (sanitize and FILTERED in str(uri)):
-        return "request.uri", f"uri {uri!r} != wire {r.request.url!r}"
+        # same decoded parameters, merely serialised differently (regrouped repeated keys, other percent-encoding)?
+        from urllib.parse import parse_qsl, urlsplit
+
+        a, b = urlsplit(str(uri)), urlsplit(r.request.url)
+        same_params = (a.scheme, a.netloc, a.path) == (b.scheme, b.netloc, b.path) and sorted(
+            parse_qsl(a.query, keep_blank_values=True)
+        ) == sorted(parse_qsl(b.query, keep_blank_values=True))
+        return ("request.uri_reserialised" if same_params else "request.uri"), f"uri {str(uri)[:300]!r} != wire {r.request.url[:300]!r}"
     for k, val in r.request.headers:
         got = _hdr_lookup(req.get("headers"), k)
         if got is None:
